@@ -604,10 +604,18 @@ func (c *Client) writeLoop() {
 		req, r := c.w.newRequest(c.name, ReqSpec{Method: "POST", Path: c.path(), Query: c.query("polling"), Hdr: h, Body: body, NoCL: c.sp.NoCL})
 		c.postResp = r
 		var pl []string
+		seenClose := false
 		for _, p := range q {
+			if p.Type == tClose {
+				seenClose = true
+			}
 			if p.Type == tMessage {
 				pl = append(pl, kindPrefix(p.Binary)+string(p.Data))
-				c.w.recx(Ev{Sess: c.name, Kind: "c-send", S: kindPrefix(p.Binary) + string(p.Data)})
+				kind := "c-send"
+				if seenClose {
+					kind = "c-send-after-close" // behind a close packet in the same payload: never to be delivered
+				}
+				c.w.recx(Ev{Sess: c.name, Kind: kind, S: kindPrefix(p.Binary) + string(p.Data)})
 			}
 		}
 		c.w.recx(Ev{Sess: c.name, Kind: "c-post-start", N: int64(r.ID), P: pl})
@@ -823,6 +831,10 @@ func (c *Client) orderlyClose() {
 		return
 	}
 	c.enqueue(ref.Packet{Type: tClose})
+	for i := 0; i < c.sp.CloseTrail; i++ {
+		// packets behind the close packet, in the same payload
+		c.enqueue(ref.Packet{Type: tMessage, Data: payloadFor(fmt.Sprintf("%s.trail%d", c.name, i), 14)})
+	}
 	c.spawn("closer", func() {
 		simrt.Block(func() bool { return c.closed || len(c.sendQ) == 0 && !c.posting })
 		c.fail("client closed")
